@@ -354,7 +354,8 @@ pub fn install_silent_hook() {
         } else {
             "non-string panic payload".to_string()
         };
-        LAST_PANIC.with(|p| *p.borrow_mut() = Some(format!("{loc}: {msg}")));
+        // try_with: the hook may run while the thread's locals are being destroyed
+        let _ = LAST_PANIC.try_with(|p| *p.borrow_mut() = Some(format!("{loc}: {msg}")));
     }));
 }
 
@@ -382,12 +383,23 @@ pub fn guard<R>(f: impl FnOnce() -> R) -> Result<R, Caught> {
                 return Err(Caught::StepBudget);
             }
             if p.downcast_ref::<crate::seams::WriterFull>().is_some() {
-                LAST_PANIC.with(|p| p.borrow_mut().take());
+                let _ = LAST_PANIC.try_with(|p| p.borrow_mut().take());
                 return Err(Caught::Panic("<simulated writer is full>".into()));
             }
             let s = LAST_PANIC
-                .with(|p| p.borrow_mut().take())
-                .unwrap_or_else(|| "unknown".into());
+                .try_with(|p| p.borrow_mut().take())
+                .ok()
+                .flatten()
+                .unwrap_or_else(|| {
+                    // no record (thread-local storage already gone): use the payload
+                    if let Some(s) = p.downcast_ref::<&str>() {
+                        s.to_string()
+                    } else if let Some(s) = p.downcast_ref::<String>() {
+                        s.clone()
+                    } else {
+                        "unknown".into()
+                    }
+                });
             Err(Caught::Panic(s))
         }
     }
